@@ -20,7 +20,7 @@ RULE = ('decision level: case = (page-table set: TTBCR.N 0..7, PD0/PD1, TTBR0/TT
         'DFSR/DFAR compared with the reference walker. instruction level: load/store rows in lock-step under the fixed '
         'page tables of the harness. long-descriptor sets (configuration with LPAE): T0SZ/T1SZ 0..7, EPD0/1, table chains of '
         '1-3 levels with block / page / table / invalid / reserved descriptors, hierarchical attribute bits, AF, AP[2:1], '
-        'MAIR attribute bytes, Secure / Non-secure PL1&0 and Hyp-mode regimes. non-trivial = a walk reached a valid descriptor or faulted; distinct = (descriptor '
+        'MAIR attribute bytes, an ASID in TTBRn<55:48>, Secure / Non-secure PL1&0 and Hyp-mode regimes. non-trivial = a walk reached a valid descriptor or faulted; distinct = (descriptor '
         'type, level, outcome, domain setting, privilege, direction)')
 ASSUMPTIONS = ['vf/ref/mem.py walk_sd / walk_ld_s1 / translate_v transcribe B3.19 (short- and long-descriptor stage 1); stage-2 '
                'translation (HCR.VM = 1) is not judged (RefNotModelled)',
@@ -67,6 +67,9 @@ def run_shard(spec):
             r.fcseidr.value = rng.choice([1, 2, 0x40]) << 25      # FCSE: VAs below 32 MB are relocated before the walk
             desc['fcse_pid'] = r.fcseidr.value >> 25
         if ctx.prot == 'mmu-ld':
+            if rng.random() < 0.5:
+                r.ttbr0_64 |= rng.choice([0x2A, 0xFF, 0x01]) << 48          # an ASID in TTBR0<55:48>: not part of the table address
+                desc['asid'] = r.ttbr0_64 >> 48
             # windows of the long-descriptor layout (vf/scen.py _program_mmu_ld)
             for n in range(13):
                 if rng.random() < 0.7:
@@ -132,6 +135,11 @@ def build_ld(cpu, r, rng, regime, ee):
             (rng.getrandbits(6) << 24) | (rng.getrandbits(1) << 22)
         r.ttbr0 = r.ttbr0_64 = base0 | rng.getrandbits(3)
         r.ttbr1 = r.ttbr1_64 = base1 | rng.getrandbits(3)
+        if rng.random() < 0.5:
+            # the 64-bit base registers carry more than the base: the ASID in <55:48> (and reserved bits above the 40-bit
+            # address) - not part of the table address
+            r.ttbr0_64 |= rng.choice([0x2A, 0xFF, 0x01, rng.getrandbits(8)]) << 48
+            r.ttbr1_64 |= rng.choice([0x2A, 0xFF, 0x01, rng.getrandbits(8)]) << 48
         r.mair0 = sum(rng.choice(MAIR_BYTES) << (8 * i) for i in range(4))
         r.mair1 = sum(rng.choice(MAIR_BYTES) << (8 * i) for i in range(4))
     tested, descs = [], []
